@@ -14,6 +14,7 @@ RULE = ('Inputs: typed generator, untyped grammar generator and clash-injected t
         'each of them (compositions of depth 2); each returned tree is walked. evaluations = trees walked; '
         'non-trivial = tree with an operator/function whose parameter type is narrower than the operand kind\'s '
         'default; distinct = shape x producing API chain.')
+RULE_ADDED = ' Since the seeding rounds: quantifiers over tiny reference sets, free variables named like a neighbouring bound variable, own-alias/bare spellings of one field at the property entry point, human-written corpus.'
 ASSUMPTIONS = ['signature tables of DESIGN.md Appendix A.2/A.3 are the documented typing; "same reference" is computed '
                'structurally (same accessor path from the same base, quantifier scope respected)']
 FLOORS = {
